@@ -17,6 +17,7 @@ package main
 import (
 	"fmt"
 	"net/http"
+	"net/url"
 	"os"
 	"runtime"
 	"runtime/debug"
@@ -226,7 +227,10 @@ var fixedSets = []func() *routeSet{
 	func() *routeSet {
 		return &routeSet{kind: "witness", methods: []string{"GET"}, ignoreTS: true,
 			entries: []entry{{"GET", "/{a}/x/"}, {"GET", "/u/{b}/{c}"}, {"GET", "h.{d}/*{w}/e/"}, {"GET", "/s/*{v}/t/{k}/"}},
-			fixed:   [][3]string{{"GET", "", "/v/x"}, {"GET", "", "/u/1/2/"}, {"GET", "h.q", "/r/s/e"}, {"GET", "", "/s/1/2/t/3"}, {"GET", "", "/v/x/"}}}
+			fixed: [][3]string{{"GET", "", "/v/x"}, {"GET", "", "/u/1/2/"}, {"GET", "h.q", "/r/s/e"}, {"GET", "", "/s/1/2/t/3"}, {"GET", "", "/v/x/"},
+				// served through the ignored-trailing-slash branch with a non-canonical / escaped path a wildcard swallows
+				{"GET", "", "/./x"}, {"GET", "", "/../x"}, {"GET", "", "/u/./../"}, {"GET", "", "/s/a/./b/t/3"}, {"GET", "", "/s/a//b/t/.."},
+				{"GET", "h.q", "/r/../s/e"}, {"GET", "", "/a%2Fb/x"}, {"GET", "", "/u/%2e/%2E/"}, {"GET", "h.q:80", "/a%2Fb/./e"}}}
 	},
 }
 
@@ -338,7 +342,7 @@ func main() {
 				fmt.Fprintln(os.Stderr, "c16: rebuilt router differs from the first build")
 				os.Exit(2)
 			}
-			req := rt.NewRequest(method, host, path)
+			req := newRequest(method, host, path)
 			serve(fc, w, req)
 			cp, ct, cks := fc.VerifCtxCaps(12)
 			gp, gt, gs := cp > int(cd.MaxParams), ct > int(cd.MaxParams), cks > int(cd.Depth)
@@ -379,6 +383,12 @@ func main() {
 			if matched {
 				nontrivial++
 				st.Count("matched:" + classify(pat, lo.Tsr, host))
+				if fox.CleanPath(path) != path {
+					st.Count("matched-noncanonical-path:" + classify(pat, lo.Tsr, host))
+				}
+				if req.URL.RawPath != "" {
+					st.Count("matched-rawpath:" + classify(pat, lo.Tsr, host))
+				}
 				st.Count(fmt.Sprintf("params:%d", len(lo.Params)))
 				if allocs > worst {
 					worst = allocs
@@ -404,15 +414,24 @@ func main() {
 			host, path := rt.SplitPattern(rt.Instantiate(rnd, base.pat, false))
 			method := base.method
 			kind := "instantiated"
-			if rnd.Pct(30) { // toggle the trailing slash (ignored / redirected tsr)
+			odd := rnd.Pct(30)
+			if odd { // wildcard values that make the path non-canonical or escaped, yet still match
+				host, path = instantiateOdd(rnd, base.pat)
+				kind = "odd-values"
+			}
+			if rnd.Pct(30) || odd && rnd.Pct(40) { // toggle the trailing slash (ignored / redirected tsr)
 				if strings.HasSuffix(path, "/") && len(path) > 1 {
 					path = path[:len(path)-1]
 				} else {
 					path += "/"
 				}
-				kind = "toggled"
+				if odd {
+					kind = "odd-values+toggled"
+				} else {
+					kind = "toggled"
+				}
 			}
-			for np := 0; rnd.Pct(20) && np < 2; np++ {
+			for np := 0; !odd && rnd.Pct(20) && np < 2; np++ {
 				path = rt.PerturbPath(rnd, path)
 				kind = "perturbed"
 			}
@@ -455,6 +474,65 @@ func main() {
 	hx.Fatal(cs.Write(out, shards))
 	hx.Fatal(st.Write(out))
 	fmt.Printf("c16: %d cases, %d matched, worst allocs/op %d\n", cs.Len(), nontrivial, worst)
+}
+
+// newRequest is rt.NewRequest, except that a path containing '%' that unescapes cleanly is sent the way
+// net/http delivers an escaped request target: URL.Path unescaped, URL.RawPath = the target (ServeHTTP routes on RawPath).
+func newRequest(method, host, path string) *http.Request {
+	req := rt.NewRequest(method, host, path)
+	if strings.Contains(path, "%") {
+		if u, err := url.PathUnescape(path); err == nil && u != path {
+			req.URL.Path = u
+			req.URL.RawPath = path
+		}
+	}
+	return req
+}
+
+var oddParam = []string{".", "..", "...", "a.", ".a", "a%2Fb", "%2E", "%2e%2e", "a%20b", "%"}
+var oddCatch = []string{".", "..", "a/./b", "a/../b", "./a", "../a", "a/.", "a/..", "a//b", "a/b//c", "a%2Fb/c", "./.", "../..", "a/./../b"}
+
+// instantiateOdd is rt.Instantiate with wildcard values of the path part drawn (mostly) from values that
+// leave the request path non-canonical (CleanPath(path) != path) or escaped; host labels get plain values.
+func instantiateOdd(r *hx.Rand, pat string) (host, path string) {
+	var sb strings.Builder
+	inPath := false
+	plain := []string{"a", "b", "ab", "x", "1"}
+	for i := 0; i < len(pat); {
+		switch {
+		case pat[i] == '{':
+			j := strings.IndexByte(pat[i:], '}')
+			if j < 0 {
+				sb.WriteString(pat[i:])
+				return rt.SplitPattern(sb.String())
+			}
+			if inPath && r.Pct(70) {
+				sb.WriteString(hx.Pick(r, oddParam))
+			} else {
+				sb.WriteString(hx.Pick(r, plain))
+			}
+			i += j + 1
+		case pat[i] == '*' && i+1 < len(pat) && pat[i+1] == '{':
+			j := strings.IndexByte(pat[i:], '}')
+			if j < 0 {
+				sb.WriteString(pat[i:])
+				return rt.SplitPattern(sb.String())
+			}
+			if r.Pct(75) {
+				sb.WriteString(hx.Pick(r, oddCatch))
+			} else {
+				sb.WriteString(hx.Pick(r, plain))
+			}
+			i += j + 1
+		default:
+			if pat[i] == '/' {
+				inPath = true
+			}
+			sb.WriteByte(pat[i])
+			i++
+		}
+	}
+	return rt.SplitPattern(sb.String())
 }
 
 func fmtEntries(es []entry) []string {
